@@ -222,3 +222,15 @@ func SignZeroTail(k Key, msg []byte) (sig [64]byte, ok bool) {
 	}
 	return sig, false
 }
+
+// HighSTwin returns (r, N-s): the other ECDSA solution for the same message and
+// key, which can be computed by anyone without the private key.
+func HighSTwin(sig [64]byte) [64]byte {
+	n := curve().Params().N
+	s := new(big.Int).SetBytes(sig[32:])
+	s.Sub(n, s)
+	var out [64]byte
+	copy(out[:32], sig[:32])
+	copy(out[32:], pad32(s))
+	return out
+}
